@@ -54,7 +54,7 @@ import (
 // ---- case --------------------------------------------------------------------------------------------------
 
 type c04Member struct {
-	Poly string `json:"poly"`           // lib | det | small | big | same
+	Poly string `json:"poly"`           // lib | det | small | big | same | root (zero share for one other member)
 	Seed uint32 `json:"seed,omitempty"` //
 	R1   string `json:"r1,omitempty"`   // "" | stop | short | long | bada0 | badot | replay | wrongmid | mismatch | negate
 	R2   string `json:"r2,omitempty"`   // "" | stop | flip | scalar | plusn | nonce | wrongkey | swap | short | long | wrongmid | badlen | outrange
@@ -153,7 +153,7 @@ func genC04(rt *rapid.T) c04Case {
 		Seed: rapid.Uint32().Draw(rt, "seed")}
 	for i := 0; i < n; i++ {
 		c.Members = append(c.Members, c04Member{
-			Poly: []string{"lib", "det", "small", "big", "same"}[gen.Pick(rt, "poly", 8, 6, 2, 2, 2)],
+			Poly: []string{"lib", "det", "small", "big", "same", "root"}[gen.Pick(rt, "poly", 8, 6, 2, 2, 2, 4)],
 			Seed: rapid.Uint32Range(0, 999).Draw(rt, "mseed"), To2: -1,
 		})
 	}
@@ -570,6 +570,18 @@ func (w *world) material(m *mem) (tss.Scalars, tss.Scalar) {
 			cs = append(cs, tssworld.ScalarFrom("c04-shared", w.c.Seed, k))
 		default:
 			cs = append(cs, tssworld.ScalarFrom("c04", w.c.Seed, m.idx, sp.Seed, m.attempts, k))
+		}
+	}
+	if sp.Poly == "root" && w.t >= 2 && w.n >= 2 {
+		// An honest polynomial that happens to vanish at another member's id: a0 = -(sum_{k>=1} a_k i^k) mod N. The share
+		// dealt to member i is 0, perfectly consistent with the commitments; the dealer follows the protocol.
+		i := w.target(m, int(sp.Seed)).id
+		rest := append([]*big.Int{new(big.Int)}, bigs(cs[1:])...)
+		a0 := modN(new(big.Int).Sub(ref.TSSN, ref.TSSEvalPoly(rest, uint64(i))))
+		if a0.Sign() != 0 {
+			cs[0] = scalarOf(a0)
+			w.v.Class("honest-dealer-with-zero-share")
+			w.v.Count("honest_dealer_with_zero_share", 1)
 		}
 	}
 	switch sp.Poly {
